@@ -119,6 +119,20 @@ def abstract_callback(it, name, optional=True):
     return Builtin(name, f)
 
 
+def child_state_callback(it):
+    """the collector owner's make_child_parsing_state callback: absent, or an unknown function returning some parsing
+    state that satisfies the state invariant (decided when the field is first read)"""
+    if it.ctx.choose(2, 'child-state callback given') == 0:
+        return None
+
+    def f(it2, a, k):
+        it2.ctx.ghost.setdefault('callback_calls', []).append(('make_child_parsing_state', list(a), dict(k)))
+        st = mk_parsing_state(it2, 'child_parsing_state', db_inv=True)
+        it2.ctx.ghost.setdefault('child_states', []).append(st)
+        return st
+    return Builtin('make_child_parsing_state', f)
+
+
 def mk_collector(it, s=None, pending=None):
     """a collector in an arbitrary state satisfying COV"""
     ctx = it.ctx
@@ -144,7 +158,7 @@ def mk_collector(it, s=None, pending=None):
              stop_token_condition=abstract_callback(it, 'stop_token_condition'),
              stop_nodelist_condition=abstract_callback(it, 'stop_nodelist_condition'),
              include_stop_token_pre_space_chars=sym_bool(it, 'include_stop_token_pre_space_chars'),
-             _make_child_parsing_state_fn=None,
+             _make_child_parsing_state_fn=V.LazyField(child_state_callback),
              _stop_token_condition_met=False, _stop_token_condition_met_token=None,
              _stop_nodelist_condition_met=False, _stop_condition_stop_data=None, _reached_end_of_stream=False)
     return new_obj(it, COLL, f, tag='self')
@@ -241,8 +255,10 @@ def register(reg):
 
     def make_pc_result(it, env):
         ctx = it.ctx
+        ctx.ghost.setdefault('parse_calls', []).append((env.vars.get('parser'), env.vars.get('parsing_state')))
         node = None if ctx.choose(2, 'parser produced a node') == 1 else mk_node(it, 'parsed_node')
         delta = None if ctx.choose(2, 'parser produced a delta') == 0 else mk_delta(it)
+        ctx.ghost.setdefault('parse_results', []).append((node, delta))
         return (node, delta)
 
     def make_parse_error(it, env, cls='LatexWalkerParseError'):
@@ -317,6 +333,31 @@ def register(reg):
             return z_not(it.contains_term(t.fields['arg'], ps.fields['_math_delims_info_by_open']))
         return False
 
+    @reg.spec('mode_handover')
+    def mode_handover(it, coll, ps0):
+        """C10: every node the collector itself creates records the collector's parsing state at that moment, and every
+        child construct is parsed in make_child_parsing_state(that state, ...): the state itself unless the owner of
+        the collector supplied a child-state callback"""
+        for node in coll.fields['_nodelist'].appended:
+            if isinstance(node, Obj) and node.tag != 'parsed_node' and 'parsing_state' in node.fields:
+                if node.fields['parsing_state'] is not ps0:
+                    return False
+        given = [k for (nm, a, k) in it.ctx.ghost.get('callback_calls', []) if nm == 'make_child_parsing_state']
+        results = it.ctx.ghost.get('child_states', [])
+        for parser, ps in it.ctx.ghost.get('parse_calls', []):
+            fn = coll.fields.get('_make_child_parsing_state_fn')
+            if isinstance(fn, V.LazyField):
+                fn = None          # never read on this path: no child was parsed through it
+            if fn is None:
+                if ps is not ps0:
+                    return False
+            elif not any(ps is r for r in results):
+                return False
+        for k in given:
+            if k.get('parsing_state') is not ps0:
+                return False
+        return True
+
     # ---- process_one_token --------------------------------------------------------------------------------------------
     def setup_pot(it):
         return {'self': mk_collector(it)}
@@ -374,7 +415,9 @@ def register(reg):
         COLL + '.process_one_token', setup=setup_pot,
         requires=COLL_REQ,
         ensures=KEPT + [('progress', '%s > old(%s)' % (RD, RD)),
-                        ('illegal-closing-tokens-are-never-silently-accepted', 'not illegal_closer(old(self.parsing_state))')],
+                        ('illegal-closing-tokens-are-never-silently-accepted', 'not illegal_closer(old(self.parsing_state))'),
+                        ('internal:nodes-made-here-carry-the-collectors-state-and-children-are-parsed-in-the-child-state',
+                         'mode_handover(self, old(self.parsing_state))')],
         raises={
             COLL + '.ReachedStoppingCondition': {'ensures': KEPT + [
                 ('stop-leaves-reader-at-or-after-entry', '%s >= old(%s)' % (RD, RD))]},
